@@ -723,6 +723,25 @@ def r15_5(ctx):
     ex = Exprs(b)
     calls = b.calls_to(FROM_FEN)
     ctx.ob("main:loads-fen-once", len(calls) == 1, b.file, "%d calls of from_fen in main" % len(calls))
+    # nothing derived from the --fen text is unwrapped on the way to from_fen: whatever the text is (a
+    # path that cannot be read, bytes that are not a position), the front end reports it, it does not panic
+    from wa.expr import data_slice
+    nbad = 0
+    for cb, ct in b.iter_calls():
+        c = callee_of(ct) or ""
+        if not (c.endswith("::unwrap") or c.endswith("::expect")):
+            continue
+        a = ex.call_args(cb)
+        if not a:
+            continue
+        sl = list(data_slice(ex, a[0]))
+        from_fen_arg = any(x[0] == "call" and "value_of" in x[1] and any(strip_refs(y) == ("str", "fen") for y in x[2]) for x in sl)
+        if from_fen_arg:
+            nbad += 1
+            ctx.ob("main:fen-text-not-unwrapped#%d" % nbad, False, b.where(b.term_loc(cb)),
+                   "`%s` unwraps a value computed from the --fen text: for some inputs the front end panics instead of printing the error" % b.text_at(b.term_loc(cb))[:70])
+    if nbad == 0:
+        ctx.ob("main:fen-text-not-unwrapped", True, b.file, "no unwrap/expect in main takes a value computed from the --fen argument", nontrivial=False)
     for bb, t in calls:
         res = ex.call_expr(t, b.term_loc(bb))
         bad = []
